@@ -70,6 +70,11 @@ var zzSeqSpecs = []string{
 	`!S1F1|!H->E|<~!L~[^1^..^3^]~<~!A~[^2^..^]|"abc"~>~<~!U1~[^1^]|300~>~>~.|!S1F2|<~!B|400~>~.`,
 	// one-character tokens: message names of one character, one-digit numbers, one-letter variables
 	`!S1F1|!W|!H->E|N|<~!L~<~!U1|7|v~>~<~!A|"q"~>~>~.|!S3F5|!H<-E|m|<~!B|1~>~.|!S9F9|!W|Z|.`,
+	// rejected texts whose error lies between the end of the message text and the terminator:
+	// terminator missing before the next header, a stray character, a second item
+	`!S1F1|!H->E~<~!A|"x"~>|s1f2|!W~.`,
+	`!S1F1|!H->E~<~!A|"x"~>|*|.`,
+	`!S1F1~<~!L~<~!U1|1~>|x~>|<~!B|2~>~.`,
 }
 
 func zzJoin(s *zzSeq, sep []string, tok []string) string {
